@@ -80,7 +80,9 @@ struct Seen {
 
 fn trusted_for(cert: &str, host: &str) -> bool {
     match cert {
-        "good" => true,
+        "good" => host != "other.invalid",
+        // (only reachable over a connection the caller opened: the name does not resolve)
+        "wrongname" => host == "other.invalid",
         // a URL without a host means localhost
         "dnsonly" => host == "localhost" || host.is_empty(),
         _ => false,
@@ -497,11 +499,18 @@ pub fn run(tier: Tier) -> i32 {
         }
     }
     // the TCP connection opened by the caller (set_std_stream): StartTLS / ldaps apply all the same
+    // (the certificate is checked against the host of the URL, whoever opened the connection:
+    // a name which only the certificate knows, an address which the certificate does not list)
     for ldaps in [true, false] {
-        for cert in ["good", "wrongname"] {
-            for answer in if ldaps { vec![Answer::Rc(0)] } else { vec![Answer::Rc(0), Answer::Rc(2), Answer::Rc0PlusForgedFrame] } {
-                for no_verify in [false, true] {
-                    cases.push(Case { ldaps, host: "localhost", no_verify, cert, answer, hs: Handshake::Normal, cloned: false, both: false, connector: None, no_timeout: false, toggled: false, pre: true });
+        for host in ["localhost", "127.0.0.1", "other.invalid"] {
+            for cert in ["good", "dnsonly", "wrongname"] {
+                for answer in if ldaps { vec![Answer::Rc(0)] } else { vec![Answer::Rc(0), Answer::Rc(2), Answer::Rc0PlusForgedFrame] } {
+                    if host != "localhost" && !matches!(answer, Answer::Rc(0)) {
+                        continue;
+                    }
+                    for no_verify in [false, true] {
+                        cases.push(Case { ldaps, host, no_verify, cert, answer, hs: Handshake::Normal, cloned: false, both: false, connector: None, no_timeout: false, toggled: false, pre: true });
+                    }
                 }
             }
         }
